@@ -86,6 +86,7 @@ func mutantsFor(prop string) []Mutant {
 		{"C09", "whole-word classes admitted as list members", []Edit{{ps, "t == LOWER || t == LETTER\n}", "t == LOWER || t == LETTER || t == WHOLE\n}"}}},
 		{"C05", "statements after a return still run in a transform", []Edit{{sr, "\tfor _, stmt := range i.Process {\n\t\tpstate = executeStatement(&stmt, pstate)\n\t\tif pstate.status == RETURNING {\n\t\t\tfinal_value = pstate.currentValue\n\t\t\tbreak\n", "\tfor _, stmt := range i.Process {\n\t\tpstate = executeStatement(&stmt, pstate)\n\t\tif pstate.status == RETURNING {\n\t\t\tfinal_value = pstate.currentValue\n"}}},
 		{"C11", "the true branch of an if keeps running after a return", []Edit{{ex, "\t\tfor _, stmt := range s.TrueBody {\n\t\t\texpr_state = executeStatement(&stmt, expr_state)\n\t\t\tif expr_state.status != NEXT {\n\t\t\t\tbreak\n\t\t\t}\n", "\t\tfor _, stmt := range s.TrueBody {\n\t\t\texpr_state = executeStatement(&stmt, expr_state)\n"}}},
+		{"C04", "skip ignored when all is set", []Edit{{sr, "\t\t\tif matchNumber >= skip {", "\t\t\tif all || matchNumber >= skip {"}}},
 		{"C08", "parse error leaves the parser lock held", []Edit{{ps, "\tcapture_group_lock.Lock()\n\tdefer capture_group_lock.Unlock()\n", "\tcapture_group_lock.Lock()\n"}}},
 		{"C14", "regexp literal byte converted as a code point", []Edit{{rx, "\t\tstart = &AstString{false, regexp[index : index+size], false}", "\t\tstart = &AstString{false, string(regexp[index]), false}"}}},
 		{"C16", "layout branch takes the blank after a backslash", []Edit{{lx, "\t\t} else if unicode.IsSpace(ch) && current_state != SSTRING_D_ESCAPE && current_state != SSTRING_S_ESCAPE {", "\t\t} else if unicode.IsSpace(ch) {"}}},
@@ -103,7 +104,13 @@ func mutantsFor(prop string) []Mutant {
 		{"C12", "break accepted outside loops", []Edit{{sem, "func checkBreak(info ProcessTypeInfo) ProcessTypeInfo {\n\tif !info.inLoop {", "func checkBreak(info ProcessTypeInfo) ProcessTypeInfo {\n\tif !info.inLoop && false {"}}},
 		{"C13", "find command keeps the previous command's scope", []Edit{{gen, "\t\tBody: []SearchInstruction{},\n\t}\n\n\tstate.variables = make(map[string]int)\n", "\t\tBody: []SearchInstruction{},\n\t}\n\n"}}},
 		{"C13", "Branch.adjust writes the stored slice", []Edit{{bc, "\t\tbranches[idx] = branch + offset", "\t\tbranches[idx] = branch + offset\n\t\ti.Branches[idx] = branch"}}},
-		{"C13", "group counter not reset per compilation", []Edit{{ps, "\tcapture_group_number = 0\n", ""}}},
+		{"C13", "group counter not reset per regexp literal", []Edit{{rx, "\t// groups are numbered within one regular expression\n\tcapture_group_number = 0\n", ""}}},
+		{"C14", "group counter not reset per regexp literal", []Edit{{rx, "\t// groups are numbered within one regular expression\n\tcapture_group_number = 0\n", ""}}},
+		{"C14", "the empty text is caught by the end-of-input test", []Edit{{se, "\tif len(value) == 0 {\n\t\t// the empty text is found everywhere, also at the end of the input: a back-reference to a group that matched nothing\n\t\tif not {\n\t\t\tes.BACKTRACK()\n\t\t} else {\n\t\t\tes.NEXT()\n\t\t}\n\t\treturn\n\t}\n", ""}}},
+		{"C10", "a replacer write helper returns early without stepping", []Edit{{sr, "\tnext_state.WRITEVAR(i.Name)\n\tnext_state.NEXT()\n", "\tnext_state.WRITEVAR(i.Name)\n\tif i.Name != \"\" {\n\t\tnext_state.NEXT()\n\t}\n"}}},
+		{"C03", "NewRange orders its bounds", []Edit{{"libvore/ds/range.go", "\treturn &Range{start, end}\n", "\tif end < start {\n\t\tstart, end = end, start\n\t}\n\treturn &Range{start, end}\n"}}},
+		{"C08", "getTokens goes on after an EOF token", []Edit{{lx, "\t\tif token.TokenType == EOF {\n\t\t\tbreak\n\t\t}\n\t}\n\treturn tokens, nil", "\t\tif token.TokenType == EOF && len(tokens) > 1 {\n\t\t\tbreak\n\t\t}\n\t}\n\treturn tokens, nil"}}},
+		{"C18", "the JSON document is used as a format string", []Edit{{"main.go", "fmt.Printf(\"There were %d matches :)\\n\", len(results))", "fmt.Printf(results.Json())"}}},
 		{"C13", "engine patches a jump target in place", []Edit{{sr, "func matchBranch(i bytecode.Branch, current_state *SearchEngineState) *SearchEngineState {\n", "func matchBranch(i bytecode.Branch, current_state *SearchEngineState) *SearchEngineState {\n\tif len(i.Branches) > 8 {\n\t\ti.Branches[0] = i.Branches[0] + 0\n\t}\n"}}},
 		{"C14", "`{m,}` encoded as exactly m", []Edit{{rx, "\t\t\t\texp = &AstLoop{from, -1, false, nil, \"\"}", "\t\t\t\texp = &AstLoop{from, from, false, nil, \"\"}"}}},
 		{"C14", "`\\D` without negation", []Edit{{rx, "return &AstCharacterClass{true, ClassDigit}, index + 1, nil", "return &AstCharacterClass{false, ClassDigit}, index + 1, nil"}}},
